@@ -70,4 +70,8 @@ MUTANTS = [
     M('sema:expr_list:all-dropped', 'sema', ['C06'], 'expression_list_to_asg_texpr', '.filter_map(|x| expr_to_asg_texpr(Some(x), context))', '.filter_map(|x| { let _y = expr_to_asg_texpr(Some(x), context); None })'),
     M('sema:include:nested-evaluated', 'sema', ['C03'], 'block_expr_to_asg_stmt_list', 'fn block_expr_to_asg_stmt_list(block: synast::BlockExpr, context: &mut Context) -> Vec<asg::Stmt> {', 'fn block_expr_to_asg_stmt_list(block: synast::BlockExpr, context: &mut Context) -> Vec<asg::Stmt> {\n    context.symbol_table.exit_scope();'),
     M('sema:block_or_stmt:unwrap-back', 'sema', ['C03'], 'block_or_stmt_to_asg_type', 'match stmt_to_asg_stmt(stmt, context) {\n                Some(stmt) => asg::Block::new(vec![stmt]),\n                None => asg::Block::new(Vec::new()),\n            }', 'asg::Block::new(vec![stmt_to_asg_stmt(stmt, context).unwrap()])'),
+    M('sema:break->continue', 'sema', ['C06'], 'stmt_to_asg_stmt', 'synast::Stmt::BreakStmt(_) => Some(asg::Stmt::Break),', 'synast::Stmt::BreakStmt(_) => Some(asg::Stmt::Continue),'),
+    M('sema:modifier:inv->ctrl', 'sema', ['C06'], 'expr_stmt_to_asg_stmt', 'synast::Modifier::InvModifier(_) => asg::GateModifier::Inv,', 'synast::Modifier::InvModifier(_) => asg::GateModifier::Ctrl(None),'),
+    M('sema:cal:silently-dropped', 'sema', ['C03'], 'stmt_to_asg_stmt', 'synast::Stmt::Cal(n) => not_impl!(context, n),', 'synast::Stmt::Cal(n) => Some(asg::Stmt::NullStmt),'),
+    M('sema:to_stmt:while-as-if', 'sema', ['C06'], 'Pragma::to_stmt', 'Stmt::Pragma(self)', 'Stmt::NullStmt'),
 ]
